@@ -139,8 +139,20 @@ func c16Txs() []c16Tx {
 	cs.Note = "london+eip3855"
 	out = append(out, c16Tx{Name: cs.Note, Case: cs})
 	cs = gen.StdCase(world.London, p0, "call", 100000)
+	cs.ExtraEips = []int{9999, 3855}
+	cs.Note = "london+{9999,3855}"
+	out = append(out, c16Tx{Name: cs.Note, Case: cs})
+	cs = gen.StdCase(world.London, p0, "call", 100000)
 	cs.Note = "london plain (PUSH0 invalid)"
 	out = append(out, c16Tx{Name: cs.Note, Case: cs})
+	// context-write precompile: a direct CALL from one contract, a STATICCALL / DELEGATECALL from another
+	var payload []byte
+	mc.Replay(nil, func(c *mc.Ctx) { payload = gen.ExplorePayload66(c, 192) })
+	for _, r := range []gen.Reach{{Kind: "call", Depth: 1}, {Kind: "staticcall", Depth: 2}, {Kind: "delegatecall", Depth: 1}} {
+		cs, _ := gen.PrecompileCase(world.Shanghai, 0x66, r, payload, 200000, r.Kind != "call")
+		cs.Note = "ctxwrite " + r.String()
+		out = append(out, c16Tx{Name: cs.Note, Case: cs})
+	}
 	// Cancun: transient storage and MCOPY
 	cn := asm.New().Push(5).Push(1).Op(asm.TSTORE).Push(1).Op(asm.TLOAD).Push(0).Op(asm.MSTORE).Push(32).Push(0).Push(64).Op(asm.MCOPY).Push(96).Push(0).Op(asm.RETURN).Bytes()
 	cs = gen.StdCase(world.Cancun, cn, "call", 100000)
@@ -318,7 +330,7 @@ func init() {
 		ID:        "C16",
 		Level:     "model_checking",
 		Technique: "exhaustive enumeration of Go map-iteration start offsets (a seam put into the runtime by a build overlay; every `range` over a map executed by the code under test is a choice point, deviation-bounded) during execution and during every recorder query; exhaustive enumeration of transaction histories (all sequences up to length 3 over a transaction set touching every package-level value) and of two-EVM invocation interleavings; canonical serialisations with lists in returned order must be identical",
-		Rule: "(a) map order: recorder transactions creating 2-8 children / index keys / change indices per node; all executions with <= 1 non-zero iteration offset during the EVM execution and all with <= 2 during the queries (Children, ChildrenIndices, IndicesOfChanges, Changes, ChildrenOf, balances, call tree); serialisation identical across all offset vectors. (b) histories: T = 13 transactions (recorder, reference journals over empty/short/long strings, arithmetic over the shared constants, precompiles + CREATE + SELFDESTRUCT + LOG, extra-EIP and plain London tables, Cancun additions); every sequence over T of length <= L in one process, each element on a fresh EVM and equal pre-state: every transaction has exactly one serialisation across all contexts. (c) isolation: two live EVMs, 2 invocations each, all 6 interleavings: each EVM's views equal its solo views. non-trivial = distinct executions in which a map with >= 2 entries was iterated with a non-zero offset, or histories of length >= 2",
+		Rule: "(a) map order: recorder transactions creating 2-8 children / index keys / change indices per node; all executions with <= 1 non-zero iteration offset during the EVM execution and all with <= 2 during the queries (Children, ChildrenIndices, IndicesOfChanges, Changes, ChildrenOf, balances, call tree); serialisation identical across all offset vectors. (b) histories: T = 17 transactions (recorder, reference journals over empty/short/long strings, arithmetic over the shared constants, precompiles + CREATE + SELFDESTRUCT + LOG, extra-EIP and plain London tables, Cancun additions); every sequence over T of length <= L in one process, each element on a fresh EVM and equal pre-state: every transaction has exactly one serialisation across all contexts. (c) isolation: two live EVMs, 2 invocations each, all 6 interleavings: each EVM's views equal its solo views. non-trivial = distinct executions in which a map with >= 2 entries was iterated with a non-zero offset, or histories of length >= 2",
 		Assumptions: []string{"maps with more than 8 entries (more than one bucket) are outside the enumerated offsets", "requires the vcheck-map binary (runtime overlay); without it only (b) and (c) run and the evidence says so"},
 		Bounds: func(t string) map[string]any {
 			return map[string]any{"exec_offset_deviation_bound": 1, "query_offset_deviation_bound": 2, "history_length": map[string]int{"quick": 3, "thorough": 4}[t], "transactions": len(c16Txs()), "map_hook": maphook.Enabled}
